@@ -57,6 +57,17 @@ def Val.truthy : Val → Bool
   | .lst l => !l.isEmpty
   | .none => false
 
+mutual
+/-- Python hashability: lists are unhashable, a tuple is hashable iff all its members are. -/
+def Val.hashable : Val → Bool
+  | .lst _ => false
+  | .tup l => Val.hashableList l
+  | _ => true
+def Val.hashableList : List Val → Bool
+  | [] => true
+  | x :: xs => x.hashable && Val.hashableList xs
+end
+
 def Val.ofBool (b : Bool) : Val := .int (if b then 1 else 0)
 
 /-- One metadata dictionary: an identifying tag and optionally a reference counter id. -/
